@@ -10,6 +10,8 @@ pub mod c10;
 pub mod c12;
 pub mod c13;
 pub mod c14;
+pub mod c16;
+pub mod c17;
 pub mod c19;
 
 pub fn run(ctx: &Ctx, st: &mut Stats) -> bool {
@@ -23,6 +25,8 @@ pub fn run(ctx: &Ctx, st: &mut Stats) -> bool {
         "C12" => c12::run(ctx, st),
         "C13" => c13::run(ctx, st),
         "C14" => c14::run(ctx, st),
+        "C16" => c16::run(ctx, st),
+        "C17" => c17::run(ctx, st),
         "C19" => c19::run(ctx, st),
         _ => return false,
     }
@@ -40,6 +44,8 @@ pub fn replay(prop: &str, case: &Value, st: &mut Stats) -> bool {
         "C12" => c12::replay(case, st),
         "C13" => c13::replay(case, st),
         "C14" => c14::replay(case, st),
+        "C16" => c16::replay(case, st),
+        "C17" => c17::replay(case, st),
         "C19" => c19::replay(case, st),
         _ => false,
     }
